@@ -108,12 +108,26 @@ def check_text(bib, text, toks, out, speclib):
     M = bib.model
     exp = splitobs.render(text, toks, out)
     res = []
-    for how in ("parse_stack=[]", "default"):
+    for how in ("parse_stack=[]", "default", "default stack in copy mode"):
         try:
-            lib = bib.parse_string(text, parse_stack=[]) if how == "parse_stack=[]" else bib.parse_string(text)
+            if how == "parse_stack=[]":
+                lib = bib.parse_string(text, parse_stack=[])
+            elif how == "default":
+                lib = bib.parse_string(text)
+            else:
+                lib = bib.parse_string(text, parse_stack=bib.middlewares.default_parse_stack(allow_inplace_modification=False))
         except Exception as e:  # noqa
             res.append(("raised", f"{type(e).__name__}: {e}", how))
             continue
+        # a duplicate-field block keeps EVERY field occurrence of its entry, in source order, whatever the stack
+        for i, (b, e) in enumerate(zip(lib.blocks, exp)):
+            if e["cls"] == "dupfield":
+                inner = getattr(b, "ignore_error_block", None)
+                keys = [f.key for f in inner.fields] if isinstance(inner, M.Entry) else None
+                if not isinstance(b, M.DuplicateFieldKeyBlock) or keys != [f[0] for f in e["fields"]]:
+                    res.append(("duplicate_field_block", f"position {i + 1}: {type(b).__name__} with field keys {keys}, expected every "
+                                f"occurrence {[f[0] for f in e['fields']]}", how))
+                    break
         if how == "parse_stack=[]":
             obs = splitobs.observe(lib, M)
             problem, spans = splitobs.locate(text, obs)
